@@ -152,6 +152,16 @@ func hasFlag(flags, f string) bool {
 // Apply replays one event.
 func (fs *FS) Apply(ev Event) (Applied, error) {
 	a := Applied{Op: "none"}
+	if ev.Name == "execve" {
+		// a new process image: the runner (like every Go program) opens all its files close-on-exec. The reported
+		// result is not looked at: under --seccomp-bpf strace shows a bogus errno for an execve that a thread other
+		// than the leader issued; a runner whose execve really failed exits with status 6 (treated as infrastructure).
+		for fd := range fs.fds {
+			delete(fs.fds, fd)
+		}
+		a.Op = "exec"
+		return a, nil
+	}
 	if ev.Fail {
 		return a, nil
 	}
@@ -356,6 +366,17 @@ func (fs *FS) Apply(ev Event) (Applied, error) {
 		}
 		delete(opar.children, oname)
 		npar.children[nname] = on
+		// open descriptors follow the file: later writes and fsyncs are reported under its current name
+		for _, e := range fs.fds {
+			if e.isAck {
+				continue
+			}
+			if e.path == orel {
+				e.path = nrel
+			} else if strings.HasPrefix(e.path, orel+"/") {
+				e.path = nrel + e.path[len(orel):]
+			}
+		}
 		a.Op, a.Path, a.Path2, a.Changed = "rename", orel, nrel, true
 		return a, nil
 	case "fcntl":
